@@ -544,7 +544,7 @@ fn recover_and_judge(src: &str, store: Arc<dyn StateStore>, cfg: CheckpointConfi
     let mut counts: BTreeMap<i64, u32> = BTreeMap::new();
     if let Some(b) = fin.context_states.get("c2") {
         for (_, w) in &b.window_states {
-            for se in &w.events {
+            for se in w.events.iter().chain(w.partitions.values().flat_map(|p| p.events.iter())) {
                 let ev: Event = se.clone().into();
                 *counts.entry(ev.get_int("seq").unwrap_or(-1)).or_insert(0) += 1;
             }
@@ -686,8 +686,11 @@ fn run_c27(batch: &str, tape: &mut Tape, rep: &mut Report) {
 fn run_c27_rejected(tape: &mut Tape, rep: &mut Report) {
     let cap = tape.range(1, 3) as usize;
     let n = tape.range(6, 30) as i64;
-    let src = "context c1\ncontext c2\nstream A = Raw\n  .context(c1)\n  .emit(seq: seq, v: v)\nstream B = A\n  .context(c2)\n  .window(100000)\n  .aggregate(n: count())\n  .emit(n: n)\n";
-    rep.config = format!("channel_capacity={} inputs={} batch=rejected-barriers", cap, n);
+    // half of the runs keep the consumer's buffer in a partitioned count window (several partitions hold events at the cut)
+    let partitioned = tape.chance(1, 2);
+    let src_s = format!("context c1\ncontext c2\nstream A = Raw\n  .context(c1)\n  .emit(seq: seq, v: v)\nstream B = A\n  .context(c2)\n{}  .window(100000)\n  .aggregate(n: count())\n  .emit(n: n)\n", if partitioned { "  .partition_by(v)\n" } else { "" });
+    let src = src_s.as_str();
+    rep.config = format!("channel_capacity={} inputs={} consumer_partitioned={} batch=rejected-barriers", cap, n, partitioned);
     rep.log(format!("config {}", rep.config));
     let store: Arc<dyn StateStore> = Arc::new(MemoryStore::new());
     let cfg = CheckpointConfig { max_checkpoints: 3, ..Default::default() };
